@@ -227,6 +227,18 @@ func (c *Ctx) Violation(sub, what string, witness any, sig ...string) {
 	c.mu.Unlock()
 }
 
+// TotalViolations returns the number of violating cases so far (occurrences, not distinct signatures):
+// checks use it to stop early on a tree that is plainly broken.
+func (c *Ctx) TotalViolations() int64 {
+	c.mu.Lock()
+	defer c.mu.Unlock()
+	var n int64
+	for _, v := range c.vio {
+		n += v.Count
+	}
+	return n
+}
+
 // NViolations returns the number of distinct violations so far.
 func (c *Ctx) NViolations() int { c.mu.Lock(); defer c.mu.Unlock(); return len(c.vio) }
 
@@ -284,7 +296,7 @@ func (c *Ctx) Guard(limit time.Duration, progress func() int64, fn func()) *Stuc
 	}
 }
 
-var frameRe = regexp.MustCompile(`^(go\.opentelemetry\.io/collector/[^\s(]+?)(\(|$)`)
+var frameRe = regexp.MustCompile(`^(go\.opentelemetry\.io/collector/.+)\([^()]*\)$`)
 
 // BlockedRepoFrames extracts, per goroutine of a dump, the innermost frame inside the repository
 // (not the harness) together with the goroutine's wait reason; sorted, de-duplicated.
